@@ -61,6 +61,7 @@ const (
 	kpTwoClientSet
 	kpCloseErrno
 	kpRecvHard
+	kpSeqWrap
 	nKProbes
 )
 
@@ -71,7 +72,7 @@ var kProbeNames = []string{"unsolicited_record_skipped_inside_call", "eagain_x9_
 	"waitacks_with_nothing_pending", "waitacks_called_again_after_error", "repeated_close_was_noop", "second_close_blocked_in_once",
 	"close_cleared_pid", "getrules_buffer_overwritten_later", "sends_overlapped_in_time", "receive_short_datagram", "receive_foreign_port_id",
 	"receive_non_netlink_address", "short_after_long_datagram", "send_payload_8970", "send_with_caller_pid", "porcupine_histories_checked",
-	"sendto_failed", "kernel_immutable", "receive_foreign_port_id_with_group_mask", "receive_foreign_port_id_2^31_or_more", "getstatus_result_checked_again_at_end", "receive_on_two_independent_clients_in_tasks", "forged_reply_queued_ahead_of_the_kernels", "ack_datagram_truncated", "setters_on_two_clients_in_two_tasks", "socket_close_reported_an_error", "receive_failed_with_enobufs_inside_call"}
+	"sendto_failed", "kernel_immutable", "receive_foreign_port_id_with_group_mask", "receive_foreign_port_id_2^31_or_more", "getstatus_result_checked_again_at_end", "receive_on_two_independent_clients_in_tasks", "forged_reply_queued_ahead_of_the_kernels", "ack_datagram_truncated", "setters_on_two_clients_in_two_tasks", "socket_close_reported_an_error", "receive_failed_with_enobufs_inside_call", "sequence_counter_started_next_to_wrap"}
 
 var kFaultNames = []string{"injected_errno", "unsolicited_records", "stale_reply", "delayed_reply", "truncated_or_padded_reply", "spoofed_datagram",
 	"recv_eintr", "recv_eagain_injected", "recv_eagain_natural", "sendto_errno", "concurrent_close_tasks", "concurrent_send_tasks"}
@@ -181,6 +182,14 @@ func ExecKPlan(p *KPlan, trace bool) *core.Result {
 			fs[i].Spoof = 0
 		}
 		k.Faults = fs
+	}
+	if p.SeqStart != 0 && p.Scenario != 18 {
+		if c.realNL != nil {
+			setRealSeq(c.realNL, p.SeqStart)
+		} else {
+			c.stub.seq = p.SeqStart
+		}
+		res.Probes[kpSeqWrap]++
 	}
 	c.client = &libaudit.AuditClient{Netlink: c.nl}
 	if k.Status[kern.WEnabled] == 2 {
